@@ -83,12 +83,15 @@ func (h *Heap[T]) peek() T {
 	return h.data[0]
 }
 
-// GetValues returns the heap values.
+// GetValues returns a copy of the heap values.
 func (h *Heap[T]) GetValues() []T {
 	h.mu.RLock()
 	defer h.mu.RUnlock()
 
-	return h.data
+	values := make([]T, len(h.data))
+	copy(values, h.data)
+
+	return values
 }
 
 // Push inserts new elements at the end of the heap and calls the heapify algorithm to reorder
